@@ -48,7 +48,7 @@ def run(ctx):
     exe = ctx.harness(b, "asan")
     facts = ctx.facts(b, ["macros", "names"])
     # 1. the model: invariants and action properties, exhaustive within the bounds of MC_C14.cfg
-    r = ctx.tlc_must_pass("MC_C14", workers=16, heap="12g")
+    r = ctx.tlc_must_pass("MC_C14", workers=16, heap="8g")
     mc_states, mc_trans = r["distinct"], r["generated"]
     # 2. every transition of the (smaller) model graph becomes a program
     r = ctx.tlc("MC_C14", cfg="MC_C14_emit", workers=1, heap="4g")
@@ -76,7 +76,7 @@ def run(ctx):
         nev += sum(1 for _ in open(out))
     for l in open(outs[-1][0]):
         if '"op":"ReadFile"' in l and len(ctx.samples) < 3: ctx.samples.append(json.loads(l))
-    ctx.tlc_traces("Trace_C14", traces, env={"XRL_FACTS": facts}, heap="4g")
+    ctx.tlc_traces("Trace_C14", traces, env={"XRL_FACTS": facts}, heap="2g")
     # 4. damaged files: the reader's verdict is free, what may happen to the collection is not (Trace_C14f)
     nfz = 100 if ctx.quick else 2000
     fz = run_parts(ctx, exe, [["c14", "fuzz", nfz] for _ in range(NCPU)], "fuzz")
